@@ -39,6 +39,8 @@ type c17Src struct {
 	doc     bool   // loaded from a document
 	tag     string
 	docKind int // which base document a document template is built from
+	// schedOnly: used by the schedule scenarios, not by the history search
+	schedOnly bool
 }
 
 var c17Sources = []c17Src{
@@ -55,6 +57,11 @@ var c17Sources = []c17Src{
 	// one (header) and one where d has none (footer): what the engine remembers about "word/header1.xml" of
 	// one template must not be applied to the other (seed C18-d1)
 	{name: "e", tag: "e.doc", doc: true, docKind: 1},
+	// schedule scenarios only (not part of the history alphabet): another definition under the name of the
+	// document template / of the plain template, of the other kind of template
+	{name: "d", tag: "d.v2(e's document under the name d)", doc: true, docKind: 1, schedOnly: true},
+	{name: "plain", tag: "plain.v2(a document under the name plain)", doc: true, schedOnly: true},
+	{name: "d", tag: "d.v3(a text template under the name d)", content: "text {{v}} under the name of a document template", schedOnly: true},
 }
 
 var c17Names = []string{"base", "c1", "c2", "g", "d", "e", "plain", "missing"}
@@ -291,6 +298,9 @@ var c17Ops []c17Op
 
 func init() {
 	for i, s := range c17Sources {
+		if s.schedOnly {
+			continue
+		}
 		c17Ops = append(c17Ops, c17Op{name: "Load(" + s.tag + ")", kind: "load", src: i})
 	}
 	for _, n := range c17Names {
@@ -631,6 +641,8 @@ type c17Call struct {
 	Src     int
 	Name    string
 	Variant int
+	// AsText: render a document template through RenderToDocument (text path) instead of RenderTemplateToDocument
+	AsText bool
 }
 
 func (c c17Call) String() string {
@@ -657,6 +669,7 @@ func clr() c17Call           { return c17Call{Kind: "clear"} }
 func rv(name string, v int) c17Call {
 	return c17Call{Kind: "render", Name: name, Variant: v}
 }
+func rt(name string) c17Call { return c17Call{Kind: "render", Name: name, AsText: true} }
 
 var c17Scens = []c17Scen{
 	{Pre: []int{0}, Threads: [][]c17Call{{rn("base")}, {ld(2)}}},
@@ -677,6 +690,14 @@ var c17Scens = []c17Scen{
 	{Pre: []int{0, 2}, Threads: [][]c17Call{{ld(3), rn("c2")}, {clr()}}},
 	{Pre: []int{0, 2}, Threads: [][]c17Call{{rn("c1")}, {ld(7), rn("c1")}}},
 	{Pre: []int{5}, Threads: [][]c17Call{{rv("d", 1)}, {ld(2)}}},
+	// a render against a load that puts ANOTHER definition (also of the other kind) under the name being rendered:
+	// the result must be the old or the new template's render, never a mixture (seed C17-g2); and a render that
+	// follows the reload in the same thread must be the new one (seed C07-g2)
+	{Pre: []int{5}, Threads: [][]c17Call{{rn("d")}, {ld(9), rn("d")}}},
+	{Pre: []int{5}, Threads: [][]c17Call{{rt("d")}, {ld(9)}}},
+	{Pre: []int{5}, Threads: [][]c17Call{{rt("d")}, {ld(11)}}},
+	{Pre: []int{6}, Threads: [][]c17Call{{rn("plain")}, {ld(10), rn("plain")}}},
+	{Pre: []int{0}, Threads: [][]c17Call{{rn("base")}, {ld(1), rn("base")}}},
 	// three threads (thorough)
 	{Pre: []int{0}, Threads: [][]c17Call{{rn("base")}, {ld(2)}, {rn("c1")}}},
 	{Pre: []int{0, 2}, Threads: [][]c17Call{{rn("c1")}, {rn("c1")}, {rm("c1")}}},
@@ -706,7 +727,15 @@ func c17DoCall(eng *document.TemplateEngine, c c17Call) string {
 		}
 		return "cleared"
 	}
-	return c17RenderOn(eng, c.Name, c17DataV(c.Variant), c.Name == "d").String()
+	r := c17RenderOn(eng, c.Name, c17DataV(c.Variant), c.Name == "d" && !c.AsText)
+	if c.AsText || c.Name == "plain" {
+		// the text path appends the header/footer texts of a document template in the order the parts came out
+		// of a map when the template was loaded: the lines are compared as a multiset
+		ls := strings.Split(r.Text, "\n")
+		sort.Strings(ls)
+		r.Text = strings.Join(ls, "\n")
+	}
+	return r.String()
 }
 
 func c17NewEngine(pre []int) *document.TemplateEngine {
@@ -740,6 +769,15 @@ func c17SeqOutcomes(sc c17Scen) map[string][]int {
 		}
 	})
 	return out
+}
+
+func c17Keys(m map[string][]int) []string {
+	var ks []string
+	for k := range m {
+		ks = append(ks, k)
+	}
+	sort.Strings(ks)
+	return ks
 }
 
 type c17SchedArgs struct {
@@ -796,7 +834,7 @@ func c17SchedWorker(c *shard.Ctx) {
 			outcomes[k] = true
 			if _, ok := allowed[k]; !ok && len(r.Panics) == 0 {
 				P.Violate(rep.Violation{Sig: "not-sequentially-explainable|" + c17ScenClass(sc), Clause: "each concurrent call equals what it produces in some sequential order", Depth: len(r.Choices),
-					What:   fmt.Sprintf("%v under schedule %v gives %s, which no sequential order of the same calls gives (%d sequential outcomes)", desc, r.Choices, trunc(k, 400), len(allowed)),
+					What:   fmt.Sprintf("%v under schedule %v gives %s, which no sequential order of the same calls gives (%d sequential outcomes: %s)", desc, r.Choices, trunc(k, 400), len(allowed), trunc(fmt.Sprint(c17Keys(allowed)), 900)),
 					Expect: keysOf(allowed), Got: k, Case: cs})
 			}
 		}
